@@ -164,7 +164,9 @@ static int read_am_instrument(struct module_data *m, HIO_HANDLE *nt, int i)
 		xxs->lps = 0;
 		xxs->lpe = 1024;
 
-		libxmp_init_random(&rng);
+		/* A fixed seed: the loaded sample data is a function of the
+		 * module files alone, not of the time of loading. */
+		libxmp_set_random(&rng, 0x4e6f6973);
 		for (j = 0; j < 1024; j++)
 			am_noise[j] = libxmp_get_random(&rng, 256);
 
